@@ -19,7 +19,7 @@ extern "C" {
 void __vf_draw_force_distinct(void);
 // the counterexample, for trace extraction
 int64_t  h_last_now, h_pre_ttl, h_pre_tick, h_cfg_ttl;
-uint64_t h_pre_n, h_pre_k[AMAX], h_pre_v[AMAX], h_pre_cnt[AMAX];
+uint64_t h_pre_n, h_pre_k[AMAX], h_pre_v[AMAX], h_pre_cnt[AMAX], h_pre_o2[AMAX];
 int64_t  h_pre_d[AMAX], h_pre_age[AMAX];
 uint64_t h_op[4], h_k[4], h_v[4], h_a[4], h_pk[4];
 int64_t  h_ttl[4], h_now[4];
@@ -29,7 +29,7 @@ static void record_pre(const Abs& pre)
     h_last_now = last_now; h_pre_ttl = pre.ttl; h_pre_tick = pre.tick; h_pre_n = pre.n; h_cfg_ttl = cfg_ttl;
     for (size_t p = 0; p < AMAX; ++p)
     {
-        h_pre_k[p] = pre.k[p]; h_pre_v[p] = pre.v[p]; h_pre_cnt[p] = pre.cnt[p]; h_pre_d[p] = pre.d[p]; h_pre_age[p] = pre.age[p];
+        h_pre_k[p] = pre.k[p]; h_pre_v[p] = pre.v[p]; h_pre_cnt[p] = pre.cnt[p]; h_pre_d[p] = pre.d[p]; h_pre_age[p] = pre.age[p]; h_pre_o2[p] = pre.o2[p];
     }
 }
 static void record_ev(int i, const Ev& e)
